@@ -227,6 +227,15 @@ class ApiBuilder:
             a = P(op[2], self.any)
             b = P(op[3], self.same(a.dtype))
             return hl.if_else(c, a, b)
+        if k == 'ifshare':      # one operand used twice in one branch and once in a sibling branch (or a neighbouring If)
+            c, x, y, v = P(op[1], self.is_bool), P(op[2], self.is_num), P(op[3], self.is_num), op[4] % 4
+            if v == 0:
+                return hl.if_else(c, (x + x) + y, x)
+            if v == 1:
+                return hl.if_else(c, x * x, x)
+            if v == 2:
+                return hl.if_else(c, x, x + x)
+            return hl.tuple([hl.if_else(c, x + x, y), hl.if_else(c, y, x)])
         if k == 'ormiss':
             return hl.or_missing(P(op[1], self.is_bool), P(op[2], self.any))
         if k == 'coalesce':
@@ -510,6 +519,14 @@ class IrBuilder:
         if k == 'if':
             c, a, b = P(op[1], 'b'), P(op[2], 'i'), P(op[3], 'i')
             return _join('i', ir.If(c.ir, a.ir, b.ir), c, a, b)
+        if k == 'ifshare':      # one operand used twice in one branch and once in a sibling branch (or a neighbouring If)
+            c, x, y, v = P(op[1], 'b'), P(op[2], 'i'), P(op[3], 'i'), op[4] % 4
+            add = lambda a, b: ir.ApplyBinaryPrimOp('+', a, b)      # noqa: E731
+            if v == 3:
+                return _join('o', ir.MakeTuple([ir.If(c.ir, add(x.ir, x.ir), y.ir), ir.If(c.ir, y.ir, x.ir)]), c, x, y)
+            th, el = [(add(add(x.ir, x.ir), y.ir), x.ir), (ir.ApplyBinaryPrimOp('*', x.ir, x.ir), x.ir),
+                      (x.ir, add(x.ir, x.ir))][v]
+            return _join('i', ir.If(c.ir, th, el), c, x, y)
         if k == 'arr':
             a, b = P(op[1], 'i'), P(op[2], 'i')
             return _join('a', ir.MakeArray([a.ir, b.ir], hl.tarray(t64)), a, b)
@@ -887,9 +904,16 @@ def _agg_op(op, init, cols, nrows, rtype_hint):
     return _hashval('agg:' + op, [init, cols], rtype_hint)
 
 
+EVAL_BUDGET = 40_000       # node visits per evaluation of one text under one environment (99% of cases need < 10k)
+_STEPS = [0]
+
+
 def ev(n: Node, env, rows):
     """value of node n; env: eval environment; rows: None or (agg rows, scan rows), each a list of per-row environments or
     None when there is no such context"""
+    _STEPS[0] += 1
+    if _STEPS[0] > EVAL_BUDGET:      # nested loops over growing arrays: the comparison is given up (class eval_gap:budget)
+        raise EvalGap('budget')
     k, c, h = n.kind, n.children, n.head
     if k in ('I32', 'I64'):
         return int(h[0])
@@ -1575,8 +1599,32 @@ def _tag_site_reused(fails):
     return out
 
 
+def _call(fn):
+    return fn()
+
+
+def _big_frame_caller():
+    """CPython >= 3.11 keeps Python frames in 16 KiB chunks that are mmap'ed when a call does not fit and unmapped as soon
+    as that frame returns: a hot recursive call that happens to straddle a chunk boundary (it depends on the depth at
+    which Hypothesis calls the test) pays two system calls per call -- measured here: 100x on the reference interpreter.
+    A caller whose own frame is declared > 512 KiB gets a 1 MiB chunk, and everything it calls lives in the ~500 KiB that
+    remain: one mapping per case.  Purely a speed matter; any failure to build it falls back to a plain call."""
+    try:
+        import types
+        return types.FunctionType(_call.__code__.replace(co_stacksize=66000), globals(), '_call_big_frame')
+    except Exception:      # noqa: BLE001
+        return _call
+
+
+_BIG = _big_frame_caller()
+
+
 def check_case(case, guard=None, guard2=None):
     """-> (nontrivial, classes, failures)"""
+    return _BIG(lambda: _check_case(case, guard, guard2))
+
+
+def _check_case(case, guard=None, guard2=None):
     hl, ir, CSERenderer, PlainRenderer = _env()
     if guard is None:
         guard = _guard()
@@ -1647,6 +1695,7 @@ def check_case(case, guard=None, guard2=None):
     for row in envs[:3]:
         env0 = {f'fv{i}': env_value(t, (row[i] if i < len(row) else 1)) for i, t in enumerate(ftypes)}
         try:
+            _STEPS[0] = 0
             want = canon(ev(pn, env0, None))
         except EvalGap as ex:
             classes.append('eval_gap')
@@ -1659,7 +1708,12 @@ def check_case(case, guard=None, guard2=None):
         if rep.fails and not ctx_only:      # a mis-scoped let is already reported; its consequences are not separate findings
             break
         try:
+            _STEPS[0] = -EVAL_BUDGET      # the CSE text of a plain text within budget gets twice the budget
             got = canon(ev(cn, env0, None))
+        except EvalGap as ex:
+            classes.append('eval_gap')
+            classes.append(f'eval_gap:{ex}')
+            break
         except Unbound as ex:
             if not ctx_only:
                 fails.append(('eval-unbound', CL_EVAL, f'evaluating the CSE text: variable {ex} is unbound; plain value {want!r}'))
@@ -1723,9 +1777,9 @@ def _strategies():
     def query(depth):
         """query programs over aggregator objects (ApiBuilder.query)"""
         code = st.integers(0, 7)
-        if depth < 3:
-            rowx = st.one_of(code, code, code, st.deferred(lambda: st.fixed_dictionaries(
-                {'ops': api_ops(depth + 1, 3, 1), 'ret': st.sampled_from([0, 0, 1])})))
+        if depth < 2:      # a per-row operand built by a nested op list over the enclosing pool and the row value
+            rowx = st.one_of(code, code, code, code, st.deferred(lambda: st.fixed_dictionaries(
+                {'ops': api_ops(depth + 1, 2, 1), 'ret': st.sampled_from([0, 0, 1])})))
         else:
             rowx = code
         lit = st.integers(-1, 4)
@@ -1733,8 +1787,8 @@ def _strategies():
         wrapper = st.one_of(flt, flt, flt, st.tuples(st.just('e'), rowx), st.tuples(st.just('g'), rowx),
                             st.tuples(st.just('a'), rowx))
         chain = st.lists(wrapper, min_size=0, max_size=2)
-        chains = st.tuples(st.lists(wrapper, min_size=1, max_size=2), chain).map(list).flatmap(
-            lambda two: st.lists(chain, min_size=0, max_size=1).map(lambda more: two + more))
+        chains = st.tuples(st.lists(wrapper, min_size=1, max_size=2), chain, st.one_of(st.none(), chain)).map(
+            lambda t: [c for c in t if c is not None])
         qshare = st.tuples(st.just('qshare'), idx, chains, st.lists(wrapper, min_size=0, max_size=1), st.sampled_from([0, 0, 1]))
         base = st.one_of(st.tuples(st.just('qsum'), rowx), st.tuples(st.just('qsum'), rowx), st.tuples(st.just('qcount')),
                          st.tuples(st.just('qcollect'), rowx))
@@ -1757,7 +1811,7 @@ def _strategies():
             st.tuples(st.just('bin'), st.sampled_from(['+', '-', '*', '//']), idx, idx),
             idx.flatmap(lambda i: st.tuples(st.just('bin'), st.sampled_from(['+', '*']), st.just(i), st.just(i))),
             st.tuples(st.just('cmp'), st.sampled_from(['<', '<=', '>', '>=', '==', '!=']), idx, idx),
-            st.tuples(st.just('if'), idx, idx, idx),
+            st.tuples(st.just('if'), idx, idx, idx), st.tuples(st.just('ifshare'), idx, idx, idx, st.integers(0, 3)),
             st.tuples(st.just('array'), st.lists(idx, min_size=1, max_size=3)),
             st.tuples(st.just('struct'), st.lists(idx, min_size=1, max_size=3)),
             st.tuples(st.just('field'), idx, idx),
@@ -1788,8 +1842,9 @@ def _strategies():
                 st.tuples(st.just('bind'), st.tuples(idx, idx), body), st.tuples(st.just('rbind'), idx, body),
                 st.tuples(st.just('flatmap'), idx, body),
                 st.tuples(st.just('aggregate'), idx, body, st.one_of(st.none(), idx)),
-                aggq, aggq,
             )
+            if depth < 2:
+                lam = st.one_of(lam, lam, lam, lam, aggq)
             alts = alts + ([lam, lam] if depth == 0 else [lam])
         return st.lists(st.one_of(*alts), min_size=min_ops, max_size=max_ops)
 
@@ -1818,6 +1873,7 @@ def _strategies():
         idx.flatmap(lambda i: st.tuples(st.sampled_from(['add', 'mul']), st.just(i), st.just(i))),
         idx.flatmap(lambda i: st.tuples(st.sampled_from(['add', 'mul']), st.just(i), st.just(i))),
         st.tuples(st.just('cmp'), idx, idx), st.tuples(st.just('if'), idx, idx, idx),
+        st.tuples(st.just('ifshare'), idx, idx, idx, st.integers(0, 3)),
         st.tuples(st.just('arr'), idx, idx), st.tuples(st.just('len'), idx),
         st.tuples(st.just('tup'), st.lists(idx, min_size=2, max_size=3)),
     )
@@ -1840,8 +1896,8 @@ def _strategies():
     wrapper = st.one_of(flt, flt, flt, st.tuples(st.just('e'), idx, idx), st.tuples(st.just('g'), idx),
                         st.tuples(st.just('p'), idx, idx), st.tuples(st.just('l'), idx, idx))
     chain = st.lists(wrapper, min_size=0, max_size=2)
-    chains = st.tuples(st.lists(wrapper, min_size=1, max_size=2), chain).map(list).flatmap(
-        lambda two: st.lists(chain, min_size=0, max_size=1).map(lambda more: two + more))
+    chains = st.tuples(st.lists(wrapper, min_size=1, max_size=2), chain, st.one_of(st.none(), chain)).map(
+        lambda t: [c for c in t if c is not None])
     share = st.tuples(st.just('ashare'), idx, chains, st.lists(wrapper, min_size=0, max_size=1), st.sampled_from([0, 0, 1]), sc)
     ir_op = st.one_of(glue, glue, glue, binders, binders, aggs, aggs, share)
 
